@@ -516,6 +516,20 @@ def stream_pathmut(rng, tier):
                 yield "hist u path %s pm[%s;%s]" % (hx(p), o1, o2)
                 if tier == "thorough":
                     yield "hist u ref %s pm[%s;%s]" % (hx("//h" + ("/" + p if p and not p.startswith("/") else p)), o1, o2)
+    # climbing out of a shielded relative path: the `.` shield left behind by a pop is not a segment
+    shielded = [".//x", ".//x/y", "./a:b", "./a:b/c", ".//", "./", ".", "./x", "a", "a/b", "..", "../a"]
+    climbs = ["..", "../..", "../../..", "../../../z", "../z", "../../z", "../../../..", "./..", "../."]
+    for p in shielded:
+        for c in climbs:
+            steps = ";".join("spush:" + hx(x) for x in c.split("/"))
+            for f in "ui":
+                yield "hist %s path %s pm[sapp:%s]" % (f, hx(p), hx(c))
+                yield "hist %s path %s pm[%s]" % (f, hx(p), steps)
+                yield "hist %s path %s pm[norm;sapp:%s]" % (f, hx(p), hx(c))
+                yield "hist %s ref %s pm[sapp:%s]" % (f, hx(p + "?q#f"), hx(c))
+                if ":" not in p:
+                    yield "hist %s ref %s pm[sapp:%s]" % (f, hx("s:" + p), hx(c))
+                    yield "hist %s ref %s pm[%s]" % (f, hx("s:" + p + "#f"), steps)
     n = 3000 if tier == "quick" else 100000
     for _ in range(n):
         f = rng.choice("ui")
@@ -593,6 +607,16 @@ def stream_resolve(rng, tier):
     for r in rfc:
         for f in "ui":
             yield "resolve %s %s %s" % (f, hx("http://a/b/c/d;p?q"), hx(r))
+    # bases without authority whose relative path is shielded or climbs, against climbing references
+    rel_bases = ["s:.//x", "s:.//x/y", "s:.//x/y/z", "s:./x", "s:a", "s:a/b/c", "s:../a/b", "s:..", "s:./", "s:.",
+                 "s:.//", "s:a//b", "s:.///x"]
+    climbs = ["..", "../..", "../../..", "../../../z", "../z", "../../z", "../../../..", "./..", "../.", "z",
+              "../../../../z", "./", ".", "..//z", "../a:b", "../../a:b"]
+    for b in rel_bases:
+        for r in climbs:
+            for f in "ui":
+                yield "resolve %s %s %s" % (f, hx(b), hx(r))
+                yield "resolve %s %s %s" % (f, hx(b + "?q"), hx(r + "#f"))
     n = 4000 if tier == "quick" else 200000
     for _ in range(n):
         f = rng.choice("ui")
